@@ -1,6 +1,6 @@
 (* C12 -- concurrent senders never interleave packets.  Statements only; proofs in Proofs/C12_*.v. *)
 From Coq Require Import List Arith Bool Sorting.Sorted.
-From EN Require Import Lib.Bytes Conc.FairLock Conc.Guard Conc.SendSerial Proofs.C12_fairlock Proofs.C12_wire.
+From EN Require Import Lib.Bytes Conc.FairLock Conc.Guard Conc.SendSerial Proofs.C12_fairlock Proofs.C12_wire Proofs.C12_guard Proofs.C12_order.
 Import ListNotations.
 
 (* FairLock, every label sequence (acquire / resume / cancel of ANY waiter at ANY time / release): at most one holder,
@@ -63,6 +63,38 @@ Theorem wire_is_concat_of_packets :
     (all_complete (s_segs s) -> s_wire s = concat (map (fun g => pkt_bytes (sg_pkt g)) (rev (s_segs s)))).
 Proof. exact wire_is_concat_of_packets_proof. Qed.
 Print Assumptions wire_is_concat_of_packets.
+
+(* With the client lock (AsyncTCPNetworkClient, server-side client), every label sequence: no task ever ends with
+   BusyResourceError; neither the lock (RuntimeError "Lock not acquired") nor the guard (AssertionError) is ever misused;
+   a task suspended inside the transport is THE lock holder and holds the guard. *)
+Theorem guard_never_busy_under_lock :
+  forall (progs : list (list packet)) (ls : list slabel) (s : st),
+    s_run (st_init true progs) ls = Some s ->
+    (forall t, nth_error (s_tasks s) t <> Some (TDone c_busy)) /\ s_crashed s = false /\
+    (forall t todo rest, nth_error (s_tasks s) t = Some (TSend todo rest) ->
+       fl_holders (s_lock s) = [t] /\ s_guard s = true).
+Proof. exact guard_never_busy_under_lock_proof. Qed.
+Print Assumptions guard_never_busy_under_lock.
+
+(* Per-sender order, with or without the lock, every label sequence: the packets for which task t got hold of the
+   transport (owned t, newest first), oldest first, followed by what t still has to send, are exactly t's program: each
+   packet of a sender reaches the transport at most once and in program order; `rem_ok`: a task that has not started has
+   sent nothing, a task waiting for the lock still has its current packet to send, a task that returned normally
+   (c_ok) has nothing left: all its packets are segments of the wire (wire_is_concat_of_packets). *)
+Theorem per_sender_order :
+  forall (ul : bool) (progs : list (list packet)) (ls : list slabel) (s : st),
+    s_run (st_init ul progs) ls = Some s ->
+    forall (t : tid) (ts : tstate), nth_error (s_tasks s) t = Some ts ->
+      exists rem, rev (owned t (s_segs s)) ++ rem = nth t progs [] /\
+                  match ts with
+                  | TNew p => rem = p
+                  | TRun => True
+                  | TWait c r => rem = c :: r
+                  | TSend _ r => rem = r
+                  | TDone c => c = c_ok -> rem = []
+                  end.
+Proof. exact per_sender_order_proof. Qed.
+Print Assumptions per_sender_order.
 
 (* non-vacuity: two senders with the lock, the second one parks, the first completes, the hand-off happens *)
 Example send_serial_example :
